@@ -3,6 +3,7 @@ package main
 import (
 	"fmt"
 	"go/constant"
+	"go/token"
 	"go/types"
 	"reflect"
 	"sort"
@@ -23,19 +24,22 @@ const (
 func init() {
 	const bp = "confd/pkg/backends/calico/bgp_processor.go"
 	const cp = "felix/config/config_params.go"
+	const rm = "felix/dataplane/linux/route_mgr.go"
 	register(&Property{
 		ID:        "C28",
 		Title:     "Exactly one component programs each IP pool's cluster routes",
-		Technique: "static analysis: finite evaluation (partial evaluator over go/ast + go/types) of both components' decision functions over the whole setting x pool-mode space, plus SSA guard analysis of the wiring sites",
+		Technique: "static analysis: finite evaluation (partial evaluator over go/ast + go/types) of both components' decision functions over the whole setting x pool-mode space, plus SSA guard/dominance analysis of the wiring sites, of the route manager's retract-before-file discipline and of the revision tag of confd's config cache",
 		DesignRef: "DESIGN.md §3 C28",
 		Explanation: "Decides the property on the finite configuration space by evaluating the source of the decision functions symbolically, never running them: " +
 			"(tables) Config.ProgramIPIPClusterRoutes/ProgramNoEncapClusterRoutes over every value Felix's resolver can yield for ProgramClusterRoutes (the oneof options of the struct tag; the tag default for absent and, the parameter not being die-on-fail, for unrecognised) and clusterRoutePolicyFromBGPConfig over {nil config, nil field, the four values, one symbolic unrecognised value} equal the documented meaning of each value and the documented defaults, and both sides recognise exactly the same four spellings; " +
 			"(pair) for the four supported pairings and for every absent/unrecognised combination Felix XOR BIRD holds per pool class; " +
 			"(pool) clusterRoutePolicy.programsPool and the kernel-filter action chosen by processIPPool (accept = BIRD programs) over {Never,Always,CrossSubnet}^2 pool modes x all policies x DisableBGPExport x IP version: VXLAN pools are never BIRD's, IPIP pools follow policy.ipip, unencapsulated pools policy.noEncap; " +
 			"(exactlyone) combining the two: for each supported pairing and pool class, BIRD's kernel filter accepts iff Felix's accessor for the class is false, and VXLAN is always rejected; " +
-			"(wiring) Felix hands the two accessors unswapped to the dataplane config, creates noEncap managers, feeds the IPIP route manager and reports NoEncapNeeded only under the matching flag, and confd adds tunl0 to the iBGP tunnel-route reject only when BIRD does not own IPIP; the calculation graph always builds the L3 route resolver when Felix owns IPIP routes of an IPIP-enabled cluster or NoEncapNeeded holds; Felix claims BIRD's routes through the IPIP device (OwnBIRDIPIPRoutes) only under ProgramIPIPClusterRoutes; every processIPPool call gets the policy computed by clusterRoutePolicyFromBGPConfig from a (non-constant) BGPConfiguration. " +
+			"(wiring) Felix hands the two accessors unswapped to the dataplane config, creates noEncap managers, feeds the IPIP route manager and reports NoEncapNeeded only under the matching flag, and confd adds tunl0 to the iBGP tunnel-route reject only when BIRD does not own IPIP; the calculation graph always builds the L3 route resolver when Felix owns IPIP routes of an IPIP-enabled cluster or NoEncapNeeded holds; Felix claims BIRD's routes through the IPIP device (OwnBIRDIPIPRoutes) only under ProgramIPIPClusterRoutes; every processIPPool call gets the policy computed by clusterRoutePolicyFromBGPConfig from a (non-constant) BGPConfiguration; " +
+			"(retract) run-time change of a pool's class: the route manager shared by the IPIP, VXLAN and no-encap managers handles a RouteUpdate/RouteRemove by first forgetting what it held for the destination - the retraction deletes from every map the handler files routes in, dominates every insert, and is reached under conditions that read nothing of the message but Dst (so not the pool type of the NEW route); " +
+			"(revision) the revision stored with confd's cached BIRD config is a GetCurrentRevision() reading that dominates every other use of the client in the computing function, so a result computed from older inputs is never cached under a newer revision. " +
 			"Anything outside the evaluator's fragment is reported undecided (exit 2), never as a pass.",
-		NotDecided: "That Felix's calculation graph and route managers, given the flags, program exactly the pools of the class (L3RouteResolver, noEncapManager, ipipManager internals); the BIRD template that renders the filter statements; 'none' as a raw Felix value (zero value \"\" = Disabled semantics); inconsistent (unsupported) pairings, which the product does not reject.",
+		NotDecided: "That Felix's calculation graph and route managers, given the flags, program exactly the pools of the class (L3RouteResolver, noEncapManager, ipipManager internals, beyond the retract-first discipline of routeManager.OnUpdate); that the calculation graph re-emits a RouteUpdate for every destination of a pool whose mode changed; atomicity of confd's cache reads against concurrent syncer updates beyond the order of the revision sample; the BIRD template that renders the filter statements; 'none' as a raw Felix value (zero value \"\" = Disabled semantics); inconsistent (unsupported) pairings, which the product does not reject.",
 		Assumptions: []string{
 			"go/types + go/ast model of the current source; the evaluator's fragment semantics (if/switch/return, == != && || !, constants, struct literals, inlined calls)",
 			"C27: Felix resolves an absent or invalid non-fatal value to the tag default and a valid oneof value to the canonical option spelling (OneofListParam.Parse)",
@@ -99,6 +103,24 @@ func init() {
 			{Name: "NoEncapNeeded no longer folds ownership in", File: "felix/calc/encapsulation_resolver.go",
 				Old: "if c.config == nil || !c.config.ProgramNoEncapClusterRoutes() {", New: "if c.config == nil {",
 				Expect: "C28.wiring/calc/NoEncapNeeded"},
+			{Name: "route manager only retracts the old entry when the new route is of its own pool type", File: rm,
+				Old: "\t\tm.deleteRoute(msg.Dst)\n\n\t\t// Process remote IPAM blocks.", New: "\t\tif msg.IpPoolType == m.ippoolType {\n\t\t\tm.deleteRoute(msg.Dst)\n\t\t}\n\n\t\t// Process remote IPAM blocks.",
+				Expect: "C28.retract/routeManager.OnUpdate/RouteUpdate/keyed-by-destination"},
+			{Name: "route manager returns early for route types it does not program, before retracting", File: rm,
+				Old: "\t\tm.deleteRoute(msg.Dst)\n\n\t\t// Process remote IPAM blocks.", New: "\t\tif !isType(msg, proto.RouteType_REMOTE_WORKLOAD) && !m.routeIsLocalBlock(msg) {\n\t\t\treturn\n\t\t}\n\t\tm.deleteRoute(msg.Dst)\n\n\t\t// Process remote IPAM blocks.",
+				Expect: "C28.retract/routeManager.OnUpdate/RouteUpdate/keyed-by-destination"},
+			{Name: "route manager no longer retracts on update", File: rm,
+				Old: "\t\tm.deleteRoute(msg.Dst)\n\n\t\t// Process remote IPAM blocks.", New: "\t\t// Process remote IPAM blocks.",
+				Expect: "C28.retract/routeManager.OnUpdate/RouteUpdate/retracts"},
+			{Name: "deleteRoute forgets the local-block (blackhole) map", File: rm,
+				Old: "delete(m.localIPAMBlocks, dst)", New: "delete(m.routesByDest, dst)",
+				Expect: "C28.retract/routeManager.OnUpdate/RouteRemove/forgets/localIPAMBlocks"},
+			{Name: "cached BIRD config tagged with the revision read at store time", File: bp,
+				Old: "\t\trevision: currentRevision,\n", New: "\t\trevision: c.GetCurrentRevision(),\n",
+				Expect: "C28.revision/client.GetBirdBGPConfig/sampled-before-inputs"},
+			{Name: "revision re-sampled after the BGPConfiguration was read", File: bp,
+				Old: "\tpc := c.getBGPProcessorContext()\n", New: "\tpc := c.getBGPProcessorContext()\n\tcurrentRevision = c.GetCurrentRevision()\n",
+				Expect: "C28.revision/client.GetBirdBGPConfig/sampled-before-inputs"},
 		},
 	})
 }
@@ -152,6 +174,8 @@ func runC28(c *Ctx) {
 	c.Rule("C28.pool", "E-TABLE", "programsPool and processIPPool's kernel-filter action over all pool modes x policies: VXLAN never BIRD, IPIP by policy.ipip, unencapsulated by policy.noEncap", 18)
 	c.Rule("C28.exactlyone", "E-TABLE", "supported pairing x pool class: BIRD's kernel filter accepts iff Felix's flag for the class is false; VXLAN always rejected", 15)
 	c.Rule("C28.wiring", "E-GUARD/E-CONST", "the flags reach the components unswapped and gate exactly the route-programming sites", 16)
+	c.Rule("C28.retract", "E-GUARD/E-ORDER", "the shared route manager (IPIP, VXLAN, no-encap) first forgets whatever it held for the destination of a RouteUpdate/RouteRemove: the retraction covers every map the handler fills, precedes every insert, and whether it happens depends on the destination only - never on the pool type or any other attribute of the new route", 7)
+	c.Rule("C28.revision", "E-ORDER", "the revision stored with a cached BIRD config is a GetCurrentRevision() reading that dominates every other use of the client in the computing function (sampled before the inputs were read)", 1)
 
 	p := c.Load(c27Pkg, c28ConfdPkg, "felix/calc", c28DrvPkg, c28DpPkg, c28OwnPkg)
 	m := &c28Model{c: c, p: p, ev: newC28Eval(p)}
@@ -164,6 +188,8 @@ func runC28(c *Ctx) {
 	pool := m.checkPool()
 	m.checkExactlyOne(felix, bird, pool)
 	c28Wiring(c, p)
+	c28Retract(c, p)
+	c28Revision(c, p)
 }
 
 func (m *c28Model) fn(pkg, name string) *types.Func {
@@ -942,4 +968,498 @@ func c28Inevitable(target ssa.Instruction, holds func(ssa.Value) bool) bool {
 		}
 	}
 	return true
+}
+
+// ---------------------------------------------------------------- retract --
+
+// c28MsgDeps: the fields of message type msgT that condition v is computed
+// from (through arithmetic, loads, calls - including the fields read by called
+// functions that receive the message).  opaque lists calls that receive the
+// whole message but whose bodies are not loaded.
+func c28MsgDeps(p *Prog, v ssa.Value, msgT types.Type) (fields map[string]bool, opaque []string) {
+	fields = map[string]bool{}
+	seen := map[ssa.Value]bool{}
+	isMsg := func(t types.Type) bool { return types.Identical(derefType(t), msgT) }
+	var walk func(v ssa.Value)
+	walk = func(v ssa.Value) {
+		if v == nil || seen[v] {
+			return
+		}
+		seen[v] = true
+		switch x := v.(type) {
+		case *ssa.BinOp:
+			walk(x.X)
+			walk(x.Y)
+		case *ssa.UnOp:
+			walk(x.X)
+		case *ssa.FieldAddr:
+			if isMsg(x.X.Type()) {
+				fields[fieldName(x.X.Type(), x.Field)] = true
+				return
+			}
+			walk(x.X)
+		case *ssa.Field:
+			if isMsg(x.X.Type()) {
+				fields[fieldName(x.X.Type(), x.Field)] = true
+				return
+			}
+			walk(x.X)
+		case *ssa.Phi:
+			for _, e := range x.Edges {
+				walk(e)
+			}
+		case *ssa.Extract:
+			walk(x.Tuple)
+		case *ssa.Convert:
+			walk(x.X)
+		case *ssa.ChangeType:
+			walk(x.X)
+		case *ssa.MakeInterface:
+			walk(x.X)
+		case *ssa.Lookup:
+			walk(x.X)
+			walk(x.Index)
+		case *ssa.IndexAddr:
+			walk(x.X)
+			walk(x.Index)
+		case *ssa.Index:
+			walk(x.X)
+			walk(x.Index)
+		case *ssa.TypeAssert:
+			// a type test reads no field
+		case *ssa.Call:
+			args := x.Call.Args
+			if x.Call.IsInvoke() {
+				args = append([]ssa.Value{x.Call.Value}, args...)
+			}
+			for _, a := range args {
+				if !isMsg(a.Type()) {
+					walk(a)
+					continue
+				}
+				if _, isPtr := a.Type().Underlying().(*types.Pointer); !isPtr {
+					walk(a)
+					continue
+				}
+				// the message itself is handed to the callee
+				f := calleeOf(x.Common())
+				fn := calleeFn(x.Common())
+				switch {
+				case fn != nil && fn.Blocks != nil:
+					for n := range fieldsRead(p.closure(fn), msgT) {
+						fields[n] = true
+					}
+				case f != nil && strings.HasPrefix(f.Name(), "Get") && f.Type().(*types.Signature).Recv() != nil:
+					fields[strings.TrimPrefix(f.Name(), "Get")] = true
+				default:
+					opaque = append(opaque, path(x))
+				}
+			}
+		}
+	}
+	walk(v)
+	return
+}
+
+// c28DecidingConds: the branch conditions that decide whether target executes:
+// the transitive control dependences of its block (Y depends on branch B iff Y
+// post-dominates one successor of B but not B itself; panic blocks do not
+// count as exits), plus the dominance guards.  Handles early returns, nested
+// ifs, && / || chains and switches alike.
+func c28DecidingConds(target ssa.Instruction) []ssa.Value {
+	fn := target.Parent()
+	pd := postDominators(fn)
+	seenCond := map[ssa.Value]bool{}
+	var out []ssa.Value
+	add := func(v ssa.Value) {
+		v, _ = stripNot(v, true)
+		if !seenCond[v] {
+			seenCond[v] = true
+			out = append(out, v)
+		}
+	}
+	for _, g := range guardsOf(target) {
+		add(g.Cond)
+	}
+	seenBlk := map[*ssa.BasicBlock]bool{target.Block(): true}
+	work := []*ssa.BasicBlock{target.Block()}
+	for len(work) > 0 {
+		y := work[len(work)-1]
+		work = work[:len(work)-1]
+		for _, b := range fn.Blocks {
+			if len(b.Instrs) == 0 || len(b.Succs) != 2 || b.Succs[0] == b.Succs[1] {
+				continue
+			}
+			ifi, ok := b.Instrs[len(b.Instrs)-1].(*ssa.If)
+			if !ok || (b != y && pd[b][y]) {
+				continue
+			}
+			dep := false
+			for _, s := range b.Succs {
+				dep = dep || pd[s][y]
+			}
+			if !dep {
+				continue
+			}
+			add(ifi.Cond)
+			if !seenBlk[b] {
+				seenBlk[b] = true
+				work = append(work, b)
+			}
+		}
+	}
+	return out
+}
+
+func c28Retract(c *Ctx, p *Prog) {
+	const mgr = "routeManager"
+	on := p.Func(c28DpPkg, mgr+".OnUpdate")
+	if on == nil {
+		c.Lost("%s.%s.OnUpdate", c28DpPkg, mgr)
+	}
+	msgT := map[string]types.Type{}
+	for _, n := range []string{"RouteUpdate", "RouteRemove"} {
+		tn, _ := p.LookupExt("felix/proto", n).(*types.TypeName)
+		if tn == nil {
+			c.Lost("proto.%s", n)
+		}
+		if o, _, _ := types.LookupFieldOrMethod(tn.Type(), true, tn.Pkg(), "Dst"); o == nil {
+			c.Lost("proto.%s.Dst", n)
+		}
+		msgT[n] = tn.Type()
+	}
+	mapField := func(m ssa.Value) *types.Var {
+		u, ok := m.(*ssa.UnOp)
+		if !ok {
+			return nil
+		}
+		fa, ok := u.X.(*ssa.FieldAddr)
+		if !ok || namedTypeName(derefType(fa.X.Type())) != mgr {
+			return nil
+		}
+		return fieldVar(fa)
+	}
+	// the handler: OnUpdate and the manager's own methods it reaches (so that
+	// extracting a per-message helper keeps the rule working)
+	handler := []*ssa.Function{on}
+	for f := range p.closure(on) {
+		if f != on && f.Parent() == nil && f.Signature.Recv() != nil && namedTypeName(derefType(f.Signature.Recv().Type())) == mgr {
+			handler = append(handler, f)
+		}
+	}
+	sort.Slice(handler[1:], func(i, j int) bool { return fnName(handler[1+i]) < fnName(handler[1+j]) })
+	// H: the maps of the manager the handler files RouteUpdates under
+	held := map[*types.Var][]*ssa.MapUpdate{}
+	for _, hf := range handler {
+		allInstrs(hf, false, func(_ *ssa.Function, in ssa.Instruction) {
+			mu, ok := in.(*ssa.MapUpdate)
+			if !ok {
+				return
+			}
+			if fv := mapField(mu.Map); fv != nil && types.Identical(derefType(mu.Value.Type()), msgT["RouteUpdate"]) {
+				held[fv] = append(held[fv], mu)
+			}
+		})
+	}
+	if len(held) < 2 {
+		c.Lost("%s.OnUpdate files RouteUpdates in %d map field(s) of the manager (expected routesByDest and localIPAMBlocks)", mgr, len(held))
+	}
+	// what a callee forgets: builtin delete on a manager map, keyed by one of its parameters
+	forgets := func(fn *ssa.Function) map[*types.Var]bool {
+		out := map[*types.Var]bool{}
+		for f := range p.closure(fn) {
+			allInstrs(f, false, func(_ *ssa.Function, in ssa.Instruction) {
+				cc, ok := isBuiltinCall(in, "delete")
+				if !ok {
+					return
+				}
+				fv := mapField(cc.Args[0])
+				if fv == nil {
+					return
+				}
+				for _, o := range origins(cc.Args[1], nil) {
+					if o.Kind == "param" {
+						out[fv] = true
+					}
+				}
+			})
+		}
+		return out
+	}
+	// retraction calls in the handler: manager methods that forget at least one held map
+	type retraction struct {
+		cs   CallSite
+		fn   *ssa.Function
+		gone map[*types.Var]bool
+	}
+	var retr []retraction
+	for _, hf := range handler {
+		for _, cs := range callsIn(hf, false, func(f *types.Func) bool { return recvTypeName(f) == mgr }) {
+			fn := calleeFn(cs.Common())
+			if fn == nil || fn.Blocks == nil {
+				continue
+			}
+			gone := forgets(fn)
+			any := false
+			for fv := range held {
+				any = any || gone[fv]
+			}
+			if any {
+				retr = append(retr, retraction{cs, fn, gone})
+			}
+		}
+	}
+	// which message's Dst does a retraction call name?
+	dstOf := func(r retraction) string {
+		for _, a := range r.cs.Common().Args {
+			u, ok := a.(*ssa.UnOp)
+			if !ok {
+				continue
+			}
+			fa, ok := u.X.(*ssa.FieldAddr)
+			if !ok || fieldName(fa.X.Type(), fa.Field) != "Dst" {
+				continue
+			}
+			for n, t := range msgT {
+				if types.Identical(derefType(fa.X.Type()), t) {
+					return n
+				}
+			}
+		}
+		return ""
+	}
+	var heldNames []string
+	byName := map[string]*types.Var{}
+	for fv := range held {
+		heldNames = append(heldNames, fv.Name())
+		byName[fv.Name()] = fv
+	}
+	sort.Strings(heldNames)
+	for _, n := range []string{"RouteUpdate", "RouteRemove"} {
+		base := "C28.retract/" + mgr + ".OnUpdate/" + n
+		var mine []retraction
+		for _, r := range retr {
+			if dstOf(r) == n {
+				mine = append(mine, r)
+			}
+		}
+		if len(mine) == 0 {
+			c.Violate(base+"/retracts", p.Pos(on.Pos()), "the %s case of %s.OnUpdate never calls a method that forgets the entry held for msg.Dst (delete from %v): a route that changed owner or went away keeps being programmed by this manager as well", n, mgr, heldNames)
+			continue
+		}
+		// (1) between them the retractions of this case cover every held map
+		for _, hn := range heldNames {
+			covered := false
+			for _, r := range mine {
+				covered = covered || r.gone[byName[hn]]
+			}
+			c.Check(covered, base+"/forgets/"+hn, p.Pos(mine[0].cs.Instr.Pos()),
+				fmt.Sprintf("%s forgets %s.%s[dst]", fnName(mine[0].fn), mgr, hn),
+				fmt.Sprintf("handling a %s for a destination does not delete the destination from %s.%s, which the RouteUpdate case fills: the stale entry keeps being programmed", n, mgr, hn))
+		}
+		// (2) whether the retraction happens depends on the destination only
+		var bad, unknown []string
+		for _, r := range mine {
+			for _, cond := range c28DecidingConds(r.cs.Instr) {
+				fields, opaque := c28MsgDeps(p, cond, msgT[n])
+				for f := range fields {
+					if f != "Dst" {
+						bad = append(bad, fmt.Sprintf("%s.%s (condition at %s)", n, f, p.Pos(cond.Pos())))
+					}
+				}
+				unknown = append(unknown, opaque...)
+			}
+		}
+		sort.Strings(bad)
+		key := base + "/keyed-by-destination"
+		site := p.Pos(mine[0].cs.Instr.Pos())
+		switch {
+		case len(bad) > 0:
+			c.Violate(key, site, "whether %s.OnUpdate forgets the entry it holds for msg.Dst depends on %v, an attribute of the NEW route: when a pool's encapsulation changes at run time (same destination re-emitted with another pool type) the old manager keeps its stale route, so Felix keeps programming a pool that BIRD (or another manager) now owns", mgr, bad)
+		case len(unknown) > 0:
+			c.Undecided(key, site, "the retraction is guarded by calls that receive the whole message and have no loaded body: %v", unknown)
+		default:
+			c.Ok(key, site, "reaching the retraction depends on nothing of the message but Dst")
+		}
+		// (3) RouteUpdate: retract first, then file the new route
+		if n == "RouteUpdate" {
+			var late, apart []string
+			for _, hn := range heldNames {
+				for _, mu := range held[byName[hn]] {
+					ok, sameFn := false, false
+					for _, r := range mine {
+						if r.cs.Instr.Parent() != mu.Parent() {
+							continue
+						}
+						sameFn = true
+						ok = ok || (r.gone[byName[hn]] && instrDominates(r.cs.Instr, mu))
+					}
+					switch {
+					case !sameFn:
+						apart = append(apart, fmt.Sprintf("%s in %s", hn, fnName(mu.Parent())))
+					case !ok:
+						late = append(late, fmt.Sprintf("%s at %s", hn, p.Pos(mu.Pos())))
+					}
+				}
+			}
+			switch {
+			case len(late) > 0:
+				c.Violate(base+"/before-insert", site, "inserts not preceded on every path by the retraction of the old entry: %v", late)
+			case len(apart) > 0:
+				c.Undecided(base+"/before-insert", site, "inserts and retraction are in different functions, order not decided: %v", apart)
+			default:
+				c.Ok(base+"/before-insert", site, "every insert into %s is dominated by the retraction", strings.Join(heldNames, "/"))
+			}
+		}
+	}
+}
+
+// --------------------------------------------------------------- revision --
+
+// c28RevSources follows v backwards (origins; a load of a struct field is a
+// leaf) and, for parameters, into the arguments of every static call of the
+// enclosing function in the root packages.
+func c28RevSources(p *Prog, v ssa.Value, depth int) []ssa.Value {
+	var out []ssa.Value
+	var fieldLoads []ssa.Value
+	stopAtFieldLoad := func(v ssa.Value) []ssa.Value {
+		if u, ok := v.(*ssa.UnOp); ok && u.Op == token.MUL {
+			if _, isFA := u.X.(*ssa.FieldAddr); isFA {
+				fieldLoads = append(fieldLoads, v)
+				return []ssa.Value{}
+			}
+		}
+		return nil
+	}
+	os := origins(v, stopAtFieldLoad)
+	out = append(out, fieldLoads...)
+	for _, o := range os {
+		prm, ok := o.V.(*ssa.Parameter)
+		if !ok || depth == 0 {
+			out = append(out, o.V)
+			continue
+		}
+		fn := prm.Parent()
+		idx := -1
+		for i, q := range fn.Params {
+			if q == prm {
+				idx = i
+			}
+		}
+		n := 0
+		for _, caller := range p.AllFuncs() {
+			allInstrs(caller, false, func(_ *ssa.Function, in ssa.Instruction) {
+				ci, ok := in.(ssa.CallInstruction)
+				if !ok || ci.Common().IsInvoke() || calleeFn(ci.Common()) != fn {
+					return
+				}
+				n++
+				out = append(out, c28RevSources(p, ci.Common().Args[idx], depth-1)...)
+			})
+		}
+		if n == 0 {
+			out = append(out, o.V)
+		}
+	}
+	return out
+}
+
+func c28Revision(c *Ctx, p *Prog) {
+	rev, _ := p.LookupObj(c28ConfdPkg, "bgpConfigCache.revision").(*types.Var)
+	getter, _ := p.LookupObj(c28ConfdPkg, "client.GetCurrentRevision").(*types.Func)
+	if rev == nil || getter == nil {
+		c.Lost("%s: bgpConfigCache.revision / client.GetCurrentRevision", c28ConfdPkg)
+	}
+	// the client field the getter returns: a direct load of it is a reading too
+	var revSrc *types.Var
+	gfn := p.Func(c28ConfdPkg, "client.GetCurrentRevision")
+	if gfn == nil {
+		c.Lost("%s.client.GetCurrentRevision has no body", c28ConfdPkg)
+	}
+	cands := map[*types.Var]bool{}
+	allInstrs(gfn, false, func(_ *ssa.Function, in ssa.Instruction) {
+		if u, ok := in.(*ssa.UnOp); ok && u.Op == token.MUL {
+			if fa, isFA := u.X.(*ssa.FieldAddr); isFA && types.Identical(u.Type(), gfn.Signature.Results().At(0).Type()) {
+				cands[fieldVar(fa)] = true
+			}
+		}
+	})
+	if len(cands) == 1 {
+		for fv := range cands {
+			revSrc = fv
+		}
+	}
+	// reading: (instruction, client value) if src reads the cache revision
+	reading := func(src ssa.Value) (ssa.Instruction, ssa.Value, bool) {
+		switch x := src.(type) {
+		case *ssa.Call:
+			if calleeOf(x.Common()) == getter && len(x.Call.Args) > 0 {
+				return x, x.Call.Args[0], true
+			}
+		case *ssa.UnOp:
+			if fa, ok := x.X.(*ssa.FieldAddr); ok && x.Op == token.MUL && revSrc != nil && fieldVar(fa) == revSrc {
+				return x, fa.X, true
+			}
+		}
+		return nil, nil, false
+	}
+	n := 0
+	for _, fn := range c28PkgFuncs(c, p, c28ConfdPkg) {
+		allInstrs(fn, false, func(f *ssa.Function, in ssa.Instruction) {
+			st, ok := in.(*ssa.Store)
+			if !ok {
+				return
+			}
+			if _, isFA := st.Addr.(*ssa.FieldAddr); !isFA || fieldVar(st.Addr) != rev {
+				return
+			}
+			n++
+			key := "C28.revision/" + fnName(f) + "/sampled-before-inputs"
+			site := p.Pos(st.Pos())
+			var bad []string
+			srcs := c28RevSources(p, st.Val, 2)
+			for _, src := range srcs {
+				call, recv, ok := reading(src)
+				if !ok {
+					bad = append(bad, "the tag is "+path(src)+", not a reading of client.GetCurrentRevision()")
+					continue
+				}
+				var late []string
+				allInstrs(call.Parent(), false, func(_ *ssa.Function, other ssa.Instruction) {
+					ci, ok := other.(ssa.CallInstruction)
+					if !ok || other == call {
+						return
+					}
+					cc := ci.Common()
+					if calleeOf(cc) == getter {
+						return
+					}
+					uses := cc.IsInvoke() && cc.Value == recv
+					for _, a := range cc.Args {
+						uses = uses || a == recv
+					}
+					if uses && !instrDominates(call, other) {
+						nm := path(cc.Value)
+						if cf := calleeOf(cc); cf != nil {
+							nm = cf.Name()
+						}
+						late = append(late, nm)
+					}
+				})
+				if len(late) > 0 {
+					sort.Strings(late)
+					bad = append(bad, fmt.Sprintf("the revision reading at %s does not precede the client's %v", p.Pos(call.Pos()), late))
+				}
+			}
+			if len(srcs) == 0 {
+				bad = append(bad, "no origin for the stored revision")
+			}
+			c.Check(len(bad) == 0, key, site,
+				"the revision stored in "+fnName(f)+" is read before the client is used for anything else by the computing function",
+				"the revision stored with the cached BIRD config in "+fnName(f)+" is not the one sampled before the inputs were read: "+strings.Join(bad, "; ")+" - a datastore update (e.g. BGPConfiguration.programClusterRoutes) landing in between is cached under the new revision, so BIRD keeps the stale route-ownership filters until some unrelated update")
+		})
+	}
+	if n == 0 {
+		c.Lost("no store into bgpConfigCache.revision in %s", c28ConfdPkg)
+	}
 }
